@@ -63,6 +63,7 @@ trusted = [
     "shift() >= 0 and not NaN (sum of absolute bound changes), tolerances not NaN: stated in requires",
     "isTimeLimitReached(): time() and cumulativeTime() are arbitrary doubles (time() recorded); type invariant of the counters assumed at entry: 0 <= nCallsToTimelim < LONG_MAX, 0 <= nClckSkipsLeft <= SOPLEX_MAXNCLCKSKIPS (preserved, as proved)",
     "SPxOut::debug and SPX_MSG_* compiled out; assert() compiled out; #ifdef ENABLE_ADDITIONAL_CHECKS blocks are not compiled (macro undefined, as in the default build)",
+    "solve_gate_* instances: a REGION of solve() (from the comment `check if we have iterations left` up to the pivot call) is compiled inside `switch(0) { default: ... }`, so its `break` statements mean `pivot not reached`; the loop around it, the pricing before and the pivot after it are not part of the unit; iterations() is the real one-line body over the basis counter",
     "the host derives from the basis stub only; spxSense() (an SPxLPBase member in the tree) is a host member returning an arbitrary input in {MINIMIZE, MAXIMIZE}",
 ]
 
@@ -130,9 +131,30 @@ instances = [
          ], 3),
 ]
 
+GATE_MUT = [
+    {"name": "limit_off_by_one", "find": "iterations() >= maxIters", "replace": "iterations() > maxIters"},
+    {"name": "zero_limit_unlimited", "find": "if(maxIters >= 0 &&", "replace": "if(maxIters > 0 &&"},
+    {"name": "iter_abort_reported_as_time", "find": "m_status = ABORT_ITER;", "replace": "m_status = ABORT_TIME;"},
+    {"name": "interrupt_negated", "find": "interrupt != nullptr && *interrupt", "replace": "interrupt != nullptr && !*interrupt"},
+    {"name": "interrupt_does_not_stop", "find": "m_status = ABORT_TIME;\n                  stop = true;\n                  break;", "replace": "m_status = ABORT_TIME;\n                  stop = true;"},
+]
+GATE_MUST = [r"if\(maxIters\s*>=\s*0\s*&&\s*iterations\(\)\s*>=\s*maxIters\)", r"m_status\s*=\s*ABORT_ITER;\s*stop\s*=\s*true;\s*break;", r"if\(interrupt\s*!=\s*nullptr\s*&&\s*\*interrupt\)"]
+ITER_SLICE = {"as": "iterations.inc", "file": SOLVER_H, "sig": r"int\s+iterations\s*\(\s*\)\s*const", "must_contain": [r"return\s+basis\(\)\.iteration\(\);"]}
+START = r"/\* check if we have iterations left \*/"
+for nm, start, end, what in (
+        ("solve_gate_enter", START, r"enter\(enterId\);", "entering"),
+        ("solve_gate_leave", START + r"(?=(?:(?!enter\(enterId\);).)*?leave\(leaveNum\);)", r"leave\(leaveNum\);", "leaving")):
+    d = inst(nm, "SPxSolverBase<R>::solve(volatile bool* interrupt, bool polish), region between pricing and the pivot of the %s simplex loop "
+             "(`/* check if we have iterations left */` .. the pivot call)  [src/soplex/spxsolve.hpp]" % what,
+             "INST_GATE", "h_gate", "w_gate",
+             [ITER_SLICE, {"as": nm + ".inc", "file": SOLVE, "region_start": start, "region_end": end, "must_contain": GATE_MUST}],
+             [dict(m, slice=nm + ".inc") for m in GATE_MUT], 10)
+    d["defines"]["SLICE"] = "\"%s.inc\"" % nm
+    instances.append(d)
+
 unit = {
     "property": ["C16"],
-    "desc": "stopping tests of SPxSolverBase<R>: terminate() (spxsolve.hpp), isTimeLimitReached / setTerminationTime / setTerminationIter (spxsolver.hpp)",
+    "desc": "stopping tests of SPxSolverBase<R>: terminate() and the iteration-limit / interrupt gate before each pivot of solve() (spxsolve.hpp), isTimeLimitReached / setTerminationTime / setTerminationIter (spxsolver.hpp)",
     "rmode": "double (IEEE, bit-precise)",
     "flags": ["--bounds-check", "--pointer-check", "--signed-overflow-check", "--div-by-zero-check"],
     "timeout_s": 240,
